@@ -94,3 +94,25 @@ def c03_family(tier):
                 s.append({"op": "restart"})
                 out.append(s)
     return out
+
+
+def c04_family(tier):
+    """histories above height 10 whose reorg target has new keys right above it (first-ever versions), committed before the
+    reorg: the truncated histories are then 'old' and commit() deletes their history row - the crash points around that
+    delete are the interesting ones"""
+    out = []
+    for base in ([12] if tier == "quick" else [11, 12, 25]):
+        for commit_after in (True, False):
+            steps = [{"op": "init", "hash": "h100", "ts": 100, "height": 0}, {"op": "mine", "k": base, "ts": 101}, {"op": "commit"}]
+            hh = "h%d" % (base + 1)
+            ts = 200
+            steps.append({"op": "tx", "via": "deploy", "from": "s1", "to": "NULL", "ckind": "cell", "ops": [], "lc": {"fn": "none"},
+                          "insc": "d%d" % base, "idx": 0, "hash": hh, "ts": ts, "gas": "ample", "txid": "xd", "enc": "hex"})
+            steps.append(_tx_call("s1", "c_s1_0", [_sstore(1, 1), {"op": "log", "t": [1]}], "e%d" % base, 1, hh, ts))
+            steps.append({"op": "tx", "via": "deposit", "holder": "s2", "ticker": "ordi", "tk": "ordi", "amt": 3, "insc": "f%d" % base, "idx": 2, "hash": hh, "ts": ts})
+            steps.append({"op": "finalise", "ts": ts, "hash": hh, "count": 3})
+            if commit_after:
+                steps.append({"op": "commit"})
+            steps.append({"op": "reorg", "n": base})
+            out.append(steps)
+    return out
